@@ -15,6 +15,7 @@ extras:
 	bin/check X01
 	bin/check X02
 	bin/check X03
+	bin/check X04
 # every seeded change against the check that is expected to detect it (about an hour)
 sweep:
 	python3 tools/seedsweep.py -j 3
